@@ -923,7 +923,11 @@ class Gen:
         # counted loop: PUSH nat k; PUSH bool True; LOOP { DIP { body }; counter-- }
         k = self.rng.choice([0, 1, 2, 3])
         body, res = self.body_to(s, s, self.rng.randrange(0, 3), allow_fail=(not self.safe) and self.rng.random() < 0.2)
-        inner = [('DIP', 1, body)] + self._counter_tail()
+        if res == FAIL:
+            # the body fails on its first run: it cannot sit under DIP (a DIP body may not fail) nor be followed by code
+            inner = [('DROP', 1)] + body[1]
+        else:
+            inner = [('DIP', 1, body)] + self._counter_tail()
         self.budget -= 8
         return [('PUSH', T_NAT, ('int', k)), ('PUSH', T_BOOL, ('bool', True)), ('LOOP', ('SEQ', inner)), ('DROP', 1)], s
 
